@@ -168,7 +168,9 @@ class Report:
             # counts as "discharged on the reference tree" when the lemma itself was (no such path existed there)
             exc_ob = "::no-exception" in name or "::only-declared-exceptions" in name
             lemma_in_base = any(k.startswith(d["lemma"] + "::") or k.startswith(d["lemma"] + "[") for k in groups)
-            if (name in groups or (exc_ob and lemma_in_base)) and changed:
+            # likewise a check that sits on a path which is infeasible on the reference tree (e.g. "if a stale slot
+            # exists: it does not lead to the entry") has no obligation there: the lemma being baselined is what counts
+            if (name in groups or lemma_in_base) and changed:
                 solver_out["changed_functions"] = changed
                 self._failure(name, None, None, known, match_known, no_input=True, solver_out=solver_out)
             else:
